@@ -407,7 +407,7 @@ def work(task):
     inits = list(itertools.product(OPS_INIT, repeat=3))
     for ii in range(i, len(inits), nsh):
       ops_explore(ra, list(inits[ii]), arg, bad, stats)
-    stats['unify_calls'] = stats['transitions'] * 3; stats['comparisons'] = stats['transitions'] * 3
+    stats = dict(op_states=stats['states'], op_transitions=stats['transitions'], op_sequences_depth=arg, unify_calls=stats['transitions'] * 3, comparisons=stats['transitions'] * 3)
     kind = 'done'
   if kind == 'wide':
     CHAIN[0] = arg
@@ -481,13 +481,14 @@ def coverage(ctx, merged):
   s = merged['stats']
   states = s.get('pairs', 0) + s.get('triples', 0) + s.get('alias_cases', 0)
   return dict(
-    states=states, transitions=s.get('unify_calls', 0), traces_validated_against_impl=s.get('comparisons', 0),
+    states=states + s.get('op_states', 0), transitions=s.get('unify_calls', 0), traces_validated_against_impl=s.get('comparisons', 0),
     samples=merged['samples'], exhaustive=True,
     evaluations=states, distinct_nontrivial=s.get('proper_meets', 0) + s.get('model_clashes', 0),
     rule='state = one ordered pair / triple / aliased pair of type terms (all of them, no sampling); transition = one Unify call; '
-         'non-trivial = the model meet is a clash or differs from both inputs',
+         'non-trivial = the model meet is a clash or differs from both inputs; operation_sequence_states = distinct (observations, alias pairs, sharing) states of a three-reference pool reached by BFS over Unify / UnifyRecordField / UnifyListElement / CloseRecord',
     terms=s.get('terms', 0), pairs=s.get('pairs', 0), triples=s.get('triples', 0), triple_orders=12, core_terms=s.get('core_terms', 0),
     model_clashes=s.get('model_clashes', 0), proper_meets=s.get('proper_meets', 0),
+    operation_sequence_states=s.get('op_states', 0), operation_sequence_transitions=s.get('op_transitions', 0), operation_pools=len(OPS_INIT) ** 3, operation_depth=3 if ctx.thorough else 2, wide_terms=len(wide_terms()),
     bounds=dict(depth=3 if ctx.thorough else 1, fields=['a', 'b', 0], atoms=ATOMS), cap_hit=False)
 
 
